@@ -5,7 +5,7 @@
    [symbolize mode e script p = Out p' err calls]: Symbolizer.Symbolize(mode, e_srcs e, p) left the
    profile as p' (changed in place, also when it returns an error: err = true) after making
    the plug-in calls [calls]. *)
-From PV Require Import M_Symbolize S_Symbolize L_Symbolize L_SymbolizeValid.
+From PV Require Import M_Symbolize S_Symbolize L_Symbolize L_SymbolizeValid L_SymbolizeCheck.
 Open Scope Z_scope.
 
 (* the modelled code has no reachable panic (demanglerModeToOptions is only given modes it knows) *)
@@ -59,6 +59,30 @@ Theorem adjust_sound : forall a off, in_u64 a = true -> in_i64 off = true ->
   adjust a off = if in_u64 (a + off) then Some (a + off) else None.
 Proof. exact adjust_sound_lemma. Qed.
 Print Assumptions adjust_sound.
+
+(* -symbolize=none / no: nothing is called, nothing changes *)
+Theorem symbolize_none_changes_nothing : forall mode e script p,
+  mo_none (parse_mode mode) = true -> symbolize mode e script p = Out p false [].
+Proof. exact symbolize_none_lemma. Qed.
+Print Assumptions symbolize_none_changes_nothing.
+
+(* -- the decidable checkers that R_C12 evaluates on the implementation's output are sound for
+      the relations the theorems above are about -- *)
+Theorem frame_checker_sound : forall p p', frame_okb p p' = true -> frame_ok p p'.
+Proof. exact frame_okb_sound_lemma. Qed.
+Print Assumptions frame_checker_sound.
+
+Theorem left_alone_checker_sound : forall p p', left_aloneb p p' = true -> left_alone p p'.
+Proof. exact left_aloneb_sound_lemma. Qed.
+Print Assumptions left_alone_checker_sound.
+
+Theorem names_checker_sound : forall p p', names_keptb p p' = true -> names_kept p p'.
+Proof. exact names_keptb_sound_lemma. Qed.
+Print Assumptions names_checker_sound.
+
+Theorem headroom_checker_exact : forall p p', id_headroomb p p' = true <-> id_headroom p p'.
+Proof. exact id_headroomb_spec_lemma. Qed.
+Print Assumptions headroom_checker_exact.
 
 (* -- non-vacuity: a concrete run satisfying every hypothesis above -- *)
 Definition ex_env : env := {| e_http := fun _ => false; e_symz := fun _ => EmptyString; e_filt := fun _ s => s; e_srcs := [] |}.
